@@ -1,7 +1,7 @@
 (* C03 at source level: SKey::as_equal_slice as TRANSLATED FROM src/key.rs on this run.
    Only statements; every proof is `exact` of a lemma from proofs/steps/. *)
 From Coq Require Import ZArith.
-From WS Require Import lib.Bytes lib.Res lib.StepLoop Consts Steps spec.Srp6 model.Bigint model.Key model.Srp primes.NFacts proofs.Srp proofs.steps.Key proofs.steps.Formulas.
+From WS Require Import lib.Bytes lib.Res lib.StepLoop Consts Steps spec.Srp6 model.Bigint model.Key model.Srp primes.NFacts proofs.Srp proofs.steps.Key proofs.steps.Formulas proofs.steps.Interleave.
 Local Open Scope Z_scope.
 
 (* the strip that precedes the SHA-1 interleave, for every 32-byte secret *)
@@ -42,7 +42,23 @@ Theorem C03_source_client_S : forall B x a u g n', 0 < le_to_Z n' -> le_to_Z n' 
   Some (LE32 (sp_S_client 3 (Z.of_N g) (le_to_Z n') (le_to_Z B) (le_to_Z x) (le_to_Z a) (le_to_Z u))).
 Proof. intros. rewrite calculate_client_S_translated, client_S_spec by assumption. reflexivity. Qed.
 
+(* the SHA-1 interleave and the whole server-side key derivation, through the translated functions only *)
+Theorem C03_source_interleave : forall S : list N, length S = 32%nat ->
+  tr_srp_calculate_interleaved S = Some (interleave (strip S)).
+Proof. exact interleave_source_spec. Qed.
+
+Theorem C03_source_u : forall A B, tr_srp_calculate_u A B = Some (calculate_u A B) /\ le_to_Z (calculate_u A B) = sp_u A B.
+Proof. intros A B. split; [reflexivity | apply calculate_u_value]. Qed.
+
+Theorem C03_source_session_key : forall A B v b, length A = 32%nat ->
+  tr_srp_calculate_session_key Default A B v b
+  = Some (sp_K (sp_S_server Nz (le_to_Z A) (le_to_Z v) (sp_u A B) (le_to_Z b))).
+Proof. exact session_key_source_spec. Qed.
+
 Print Assumptions C03_source_strip.
+Print Assumptions C03_source_interleave.
+Print Assumptions C03_source_u.
+Print Assumptions C03_source_session_key.
 Print Assumptions C03_source_verifier.
 Print Assumptions C03_source_server_B.
 Print Assumptions C03_source_server_S.
